@@ -144,7 +144,7 @@ impl Ctl {
         };
         if !is_ws {
             // the append of the side-effects frame: the first continuity append after `emitted`
-            let after_emitted = g.last_point.get(&actor).map(|p| p.ends_with(".emitted")).unwrap_or(false);
+            let after_emitted = g.last_point.get(&actor).map(|p| *p == "ws.tool.emitted" || *p == "ws.loop.emitted").unwrap_or(false);
             if !after_emitted || !g.linked.get(&actor).copied().unwrap_or(false) {
                 return;
             }
